@@ -258,5 +258,5 @@ def run(ctx: Ctx):
     ctx.rule = ("codec: boundary universe of header fields x body lengths; reassembly: all partitions with <= 3 segments of two "
                 "fixed streams (data + Linktest.req frames), single-byte and one-shot partitions, random partitions of random "
                 "streams, under fifo/random/PCT thread schedules; distinct = distinct (frame lengths, partition)")
-    ctx.assumptions += ["frames with SType outside E37's table are outside the property", "PType 0 only"]
+    ctx.assumptions += ["frames with SType outside E37's table are outside the property"]
     return ctx.finish()
